@@ -775,7 +775,8 @@ Inductive pulled :=
 | PTok (t : token) (lx : lexer)
 | PHang            (* fuel exhausted: the state machine made no progress *)
 | PPanic           (* a slice or index operation was out of range *)
-| PDeadlock.       (* more tokens emitted by one state call than the channel holds *)
+| PDeadlock        (* more tokens emitted by one state call than the channel holds *)
+| PBudget.         (* never returned by the lexer: the parser's own loop budget was used up (Parser.parse_loop) *)
 
 (** lexer.nextToken() *)
 Fixpoint next_token (fuel : nat) (lx : lexer) : pulled :=
